@@ -120,7 +120,11 @@ Inductive action :=
 | ASelfCommit                         (* s.(interface{ Commit() error }).Commit() *)
 | ASelfRollback
 | ACancel                             (* the caller's context is cancelled *)
-| ANop.                               (* no interaction with this transaction *)
+| ANop                                (* no interaction with this transaction *)
+| ATrip.                              (* the circuit breaker of the transaction's SqlConn OPENS: other requests on
+                                         the same SqlConn fail meanwhile. TransactCtx consulted the breaker once,
+                                         before Begin ([sbrk]); nothing between Begin and the end call looks at it
+                                         again, so for the transaction that has begun this is a no-op *)
 
 Inductive onfail :=
 | FStop             (* if err != nil { return err } *)
@@ -243,6 +247,7 @@ Definition do_action (t : nat) (sc : script) (k : Z) (a : action) (canc done : b
   | ASelfRollback => do_selfend t (sconn sc) k false canc done orc
   | ACancel => (SNone, [], orc, true, done, false)
   | ANop => (SNone, [], orc, canc, done, false)
+  | ATrip => (SNone, [], orc, canc, done, false)
   end.
 
 (* what the body does with the result of a step: None = it goes on *)
